@@ -7,6 +7,7 @@ import (
 	"path/filepath"
 	"sort"
 	"strings"
+	"time"
 
 	"github.com/apmckinlay/gsuneido/core"
 	"github.com/apmckinlay/gsuneido/db19"
@@ -91,7 +92,23 @@ func (h *harness) matchPrefix(st persisted, got map[string]map[string]string) (i
 	return -1, d
 }
 
+// checkAsof walks the history. A persist that is in progress at that moment has written its
+// state record but not published the state yet: the walk then meets a record that is newer
+// than the newest published state. That is not a fault; the walk is repeated once the
+// persist has completed.
 func (h *harness) checkAsof() bool {
+	for try := 0; ; try++ {
+		h.asofRetry = false
+		ok := h.checkAsof1(try < 50)
+		if !h.asofRetry || h.s.Over() {
+			return ok
+		}
+		h.ri.Count("asof.walk-retried-persist-in-progress", 1)
+		simrt.Sleep(time.Millisecond)
+	}
+}
+
+func (h *harness) checkAsof1(mayRetry bool) bool {
 	s := h.s
 	n := len(h.states)
 	if n == 0 {
@@ -116,6 +133,16 @@ func (h *harness) checkAsof() bool {
 				return
 			}
 			st := h.states[i]
+			if off := rt.VerifOff(); off != st.off {
+				if i == n-1 && off > st.off && mayRetry {
+					h.asofRetry = true // a newer record than the newest published state
+					ok = false
+					return
+				}
+				h.fail("C19/asof", "", "stepping back (%d states persisted): the step to state %d landed on the state at offset %d, expected offset %d", n, i, off, st.off)
+				ok = false
+				return
+			}
 			// the record is stamped before the state is published; time can pass in between
 			if t > st.hi || (i+1 < n && t > times[i+1]) {
 				h.fail("C19/asof", "", "stepping back: state %d (offset %d) reports time %d, but it was published at %d and the next state reports %d", i, st.off, t, st.hi, times[min(i+1, n-1)])
@@ -164,7 +191,7 @@ func (h *harness) checkAsof() bool {
 		for i := 1; i < n; i++ {
 			var t int64
 			res := try(func() { t = rt.Asof(1) })
-			if res != "" || t != times[i] {
+			if res != "" || t != times[i] || rt.VerifOff() != h.states[i].off {
 				h.fail("C19/asof", "C19/asof/forward", "stepping forward (%d states persisted): the step from state %d (offset %d) to state %d (offset %d) returned time %d %s, expected %d (state times %v)", n, i-1, h.states[i-1].off, i, h.states[i].off, t, res, times[i], times)
 				ok = false
 				return
